@@ -27,6 +27,7 @@ Here is a semantic property this library is supposed to satisfy:
   Title: {title}
   Statement: {statement}
   Quantified over: {quant}
+  Where it lives in the code (from the property's own record): {anchors}
 
 YOUR TASK: make ONE realistic change to the library's source (non-test .go files; do not touch *_test.go files, testdata, or the files verif_hooks*.go) that BREAKS this property, while
   (1) the project still compiles: `go build ./... && go vet ./...` are clean,
@@ -45,7 +46,7 @@ Functions those changes edited (choose code elsewhere if you can): {funcs}.
 {extra}
 """
 
-EXTRA = """Find a DIFFERENT mechanism with a DIFFERENT kind of trigger. Read widely first (lexer, parser, ast, object, evaluator, built-in functions, template loading in the root package, fail/, config/, ctx/, token/, utils/), including how the pieces call each other, and read the statement of the property sentence by sentence and its "Quantified over" line dimension by dimension: pick a clause, a listed construct, a listed case or a dimension of the quantifier that none of the earlier changes attacked, or attack an attacked clause through a construct, an API entry point (EvaluateString, EvaluateFile, NewTemplate, Template.String, Template.Response, Configure, the Register*Func family) or a configuration that none of them used. Prefer a change whose trigger somebody testing this property with randomly generated templates, data and call sequences would plausibly NOT generate: a legal but unusual spelling or clause form, a rarely used built-in, directive, option or API entry point, a combination of two or three constructs, a value at a boundary of a type or a length, a name or path with an unusual shape, a particular order or repetition of calls, a file system detail, a less common Go type in the data, a particular nesting depth or count (the third of something, more than N of something), a particular position (first, last, only) of something, a size threshold. It must be something a maintainer would plausibly do (a small feature or convenience with one corner wrong, a helper extracted that is not equivalent for one caller, a data structure change, a reordered check, a library call with slightly different semantics, an early return or fast path, a cache, a 'simplification', a fixed-size buffer or limit, an error message 'improvement'). The change must still break the stated property for a whole class of inputs (say which), compile, and keep the existing suite green."""
+EXTRA = """Find a DIFFERENT mechanism with a DIFFERENT kind of trigger. Read widely first (lexer, parser, ast, object, evaluator, built-in functions, template loading in the root package, fail/, config/, ctx/, token/, utils/), including how the pieces call each other, and read the statement of the property sentence by sentence and its "Quantified over" line dimension by dimension: pick a clause, a listed construct, a listed case or a dimension of the quantifier that none of the earlier changes attacked, or attack an attacked clause through a construct, an API entry point (EvaluateString, EvaluateFile, NewTemplate, Template.String, Template.Response, Configure, the Register*Func family) or a configuration that none of them used. Prefer a change whose trigger somebody testing this property with randomly generated templates, data and call sequences would plausibly NOT generate: a legal but unusual spelling or clause form, a rarely used built-in, directive, option or API entry point, a combination of two or three constructs, a value at a boundary of a type or a length, a name or path with an unusual shape, a particular order or repetition of calls, a file system detail, a less common Go type in the data, a particular nesting depth or count (the third of something, more than N of something), a particular position (first, last, only) of something, a size threshold. It must be something a maintainer would plausibly do (a small feature or convenience with one corner wrong, a helper extracted that is not equivalent for one caller, a data structure change, a reordered check, a library call with slightly different semantics, an early return or fast path, a cache, a 'simplification', a fixed-size buffer or limit, an error message 'improvement'). The change must still break the stated property for a whole class of inputs (say which), compile, and keep the existing suite green. In this round prefer a change inside the code the property lives in (listed above; line numbers there may have drifted) whose wrong results show in a single, sequential call with the right template and data - changes that need concurrency, a particular configuration of Response / error pages, or a cache have been used several times already."""
 
 
 def funcs_of(patch):
@@ -72,7 +73,9 @@ for pid in sorted(props):
         funcs |= funcs_of(os.path.join(d, "patch.diff"))
     wt = os.path.join(out, pid)
     q = p.get("quantifier", {})
-    txt = HEAD.format(wt=wt, title=p["title"], statement=p["statement"], quant=q.get("text", ""), pid=pid, letter=letter,
+    an = p.get("anchors", {})
+    anchors = "; ".join("%s (%s)" % (m.get("name", ""), m.get("where", "")) for m in an.get("mechanism", [])) or ", ".join(an.get("files", []))
+    txt = HEAD.format(wt=wt, title=p["title"], statement=p["statement"], quant=q.get("text", ""), anchors=anchors, pid=pid, letter=letter,
                       earlier="\n".join(earlier), funcs=", ".join(sorted(funcs)) or "(none)", extra=EXTRA)
     open(os.path.join(out, "prompt_%s.txt" % pid), "w").write(txt)
 print("wrote %d briefs to %s" % (len(props), out))
